@@ -11,8 +11,10 @@ import (
 	"os"
 	"path/filepath"
 	"sort"
+	"strconv"
 	"strings"
 	"sync"
+	"syscall"
 	"time"
 
 	"github.com/pkg/sftp"
@@ -33,11 +35,16 @@ type gCase struct {
 	Hold []int `json:"hold,omitempty"`
 	// Watch (gated mode): while waiting for calls to reach their gates, give up at once when a Close is entered that
 	// the pipeline cannot have reached yet (implied by Grace > 0).
-	Watch bool   `json:"watch_close,omitempty"`
-	Grace int    `json:"grace_ms,omitempty"`
-	Seed  int64  `json:"seed,omitempty"`
-	Root  string `json:"-"` // os-backed server: scratch root to (re)build; "" = private temp dir
-	Tag   string `json:"tag,omitempty"`
+	Watch bool  `json:"watch_close,omitempty"`
+	Grace int   `json:"grace_ms,omitempty"`
+	Seed  int64 `json:"seed,omitempty"`
+	// Staged (gated mode): the requests are sent one by one, each only after every call that the requests before it
+	// make has reached its gate — a request that follows an OPEN then arrives while the handler of that OPEN is
+	// running. (From the first request on that the server cannot take in before a gate is opened, the rest of the
+	// stream is sent in one piece, as in every other case.)
+	Staged bool   `json:"staged,omitempty"`
+	Root   string `json:"-"` // os-backed server: scratch root to (re)build; "" = private temp dir
+	Tag    string `json:"tag,omitempty"`
 }
 
 // gFault is a problem found while driving the case (as opposed to one found by inspecting the responses).
@@ -68,6 +75,12 @@ type gRun struct {
 	Final     map[string][]byte // handle name → final content (put / rw handles)
 	GraceViol string
 	Opened    []string // handles handed out by OPEN/OPENDIR requests inside the pipeline
+	// PageViol: with every request received and some not yet answered, fewer pages were marked in use than requests
+	// were waiting for their reply (each of them owns the page its frame was received into until its reply is sent).
+	PageViol string
+	PipeEnd  int64    // sequence number of the call log when the last reply of the pipeline had been read (clean-up starts here)
+	Effects  []string // os-backed server: state of every object the requests name, after Serve has returned
+	Started  time.Time
 }
 
 // gCollector takes reply frames off the transport as they arrive.
@@ -207,9 +220,10 @@ func gAllocCounts(srv *peers.Srv) (int, int, bool) {
 }
 
 func gExec(cs *gCase) *gRun {
-	run := &gRun{Case: cs, Final: map[string][]byte{}}
+	run := &gRun{Case: cs, Final: map[string][]byte{}, Started: time.Now()}
 	p := cs.Prog
 	hub := newHub(false)
+	hub.free = gFreeCall
 	k := lib.NewCase(gClass(gChildProp, p.Server)) // hang account of this case (lib/budget.go)
 	hub.kase = k
 	root := cs.Root
@@ -374,6 +388,8 @@ func gExec(cs *gCase) *gRun {
 			} else {
 				h = "no-such-handle-" + o.H
 			}
+		} else if o.Nx > 0 { // a handle number the server has not handed out yet (every handle of the set-up took one)
+			h = strconv.Itoa(len(p.Handles) + o.Nx)
 		}
 		fr := o.frame(cs.sent(root, o), h)
 		frames = append(frames, fr)
@@ -411,6 +427,48 @@ func gExec(cs *gCase) *gRun {
 		return nil
 	}
 	sendErr := make(chan error, 1)
+	sentDone, sentErr := false, error(nil)
+	// awaitSent waits until the server has taken in the whole request stream (the transport is unbuffered: Send
+	// returns when the last byte has been read).
+	awaitSent := func(d time.Duration) bool {
+		if sentDone {
+			return true
+		}
+		err, ok := lib.WaitCase(k, d, sendErr)
+		if ok {
+			sentDone, sentErr = true, err
+		}
+		return ok
+	}
+	staged := 0 // requests sent one by one before the rest of the stream
+	if cs.Mode == "gated" && cs.Staged {
+		all := make([]simReq, len(p.Ops))
+		for i := range all {
+			all[i] = run.Routes[i].Sim
+			if held != nil && !held[i] {
+				all[i].Gate = ""
+			}
+		}
+		for i := range frames {
+			pre := newSim(all[:i+1])
+			if pre.nextRecv != i+1 || pre.recvHold >= 0 { // request i is not taken in before a gate is opened
+				break
+			}
+			if i > 0 {
+				var ks []string
+				for _, j := range newSim(all[:i]).started() {
+					ks = append(ks, all[j].Gate)
+				}
+				if err := hub.waitBlocked(ks, gWait(k)); err != nil {
+					return fault("schedule/blocked-set-differs/"+p.Server, fmt.Sprintf("before sending request %d (requests sent one by one): %v", i, err), i)
+				}
+			}
+			if err := hSend(srv, k, frames[i]); err != nil {
+				return fault("input/send-failed/"+p.Server, err.Error(), i)
+			}
+			staged = i + 1
+		}
+	}
 	switch cs.Mode {
 	case "serial":
 		for i := range frames {
@@ -423,7 +481,15 @@ func gExec(cs *gCase) *gRun {
 		}
 		sendErr <- nil
 	default:
-		go func() { sendErr <- srv.Send(stream) }()
+		var rest []byte
+		for _, fr := range frames[staged:] {
+			rest = append(rest, fr...)
+		}
+		if len(rest) == 0 {
+			sendErr <- nil
+		} else {
+			go func() { sendErr <- srv.Send(rest) }()
+		}
 	}
 
 	sim := newSim(reqs)
@@ -442,7 +508,7 @@ func gExec(cs *gCase) *gRun {
 		var dueCloses map[string]bool
 		earlyClose := func() error {
 			for _, c := range hub.closes[setupCloses:] {
-				if !dueCloses[c.Key] {
+				if !dueCloses[c.Key] && !c.Free {
 					return earlyCloseErr{fmt.Errorf("%s was entered", c.Key)}
 				}
 			}
@@ -508,6 +574,39 @@ func gExec(cs *gCase) *gRun {
 			if err := recvUpTo(len(sim.sent), gWait(k)); err != nil {
 				return fault("count/missing-response/"+p.Server, fmt.Sprintf("with %d gates opened the first %d replies are due: %v", step, len(sim.sent), err), step)
 			}
+			if sim.nextRecv == n && sim.recvHold < 0 {
+				// The pipeline has room for every request that is left: before the next gate is opened the server has
+				// taken all of them in (a request that waits for a busy worker waits with every later frame received).
+				if !awaitSent(gWait(k)) {
+					return fault("input/send-blocked/"+p.Server, fmt.Sprintf("with %d gates opened the pipeline has room for the whole request stream, but the server did not take it in", step), step)
+				}
+				if sentErr != nil {
+					return fault("input/send-failed/"+p.Server, sentErr.Error(), step)
+				}
+				if p.Alloc && run.PageViol == "" {
+					// every request that has not been answered owns the page its frame was received into, and the
+					// receive loop has taken one more for the frame to come
+					want := n - len(sim.sent) + 1
+					used := 0
+					// (the receive loop takes that page as soon as it is scheduled again: a few microseconds, but on a
+					// loaded machine possibly much longer — the first findings of a process are given 3 s to go away)
+					limit := 3 * time.Second
+					if gPageHits.Load() >= 4 {
+						limit = 150 * time.Millisecond
+					}
+					for t0 := time.Now(); ; {
+						used, _, _ = gAllocCounts(srv)
+						if used >= want || time.Since(t0) > limit {
+							break
+						}
+						time.Sleep(100 * time.Microsecond)
+					}
+					if used < want {
+						gPageHits.Add(1)
+						run.PageViol = fmt.Sprintf("with %d gates opened: %d of %d requests received and not yet answered, %d pages marked in use (each unanswered request holds the page of its frame, the receive loop one more)", step, n-len(sim.sent), n, used)
+					}
+				}
+			}
 			if step >= len(cs.Order) {
 				if len(st) != 0 {
 					return fault("harness/order-too-short", fmt.Sprintf("order ends with calls %v still held", st), step)
@@ -536,14 +635,11 @@ func gExec(cs *gCase) *gRun {
 		col.halt()
 		run.Extra = append(run.Extra, col.rest(n)...)
 	}
-	select {
-	case err := <-sendErr:
-		if err != nil {
-			return fault("input/send-failed/"+p.Server, err.Error(), -1)
-		}
-	case <-k.After(gDeadline):
-		k.Fired()
+	if !awaitSent(gDeadline) {
 		return fault("input/send-blocked/"+p.Server, "the server did not consume the request stream", -1)
+	}
+	if sentErr != nil {
+		return fault("input/send-failed/"+p.Server, sentErr.Error(), -1)
 	}
 	run.Trace = sim.traceText()
 	run.ModelSent = simSentText(reqs, sim.sent)
@@ -569,6 +665,9 @@ func gExec(cs *gCase) *gRun {
 	}
 
 	// ---- clean-up: close what is still open, one request at a time; then end the stream ----
+	hub.mu.Lock()
+	run.PipeEnd = hub.seq
+	hub.mu.Unlock()
 	hub.releaseAll()
 	for i, f := range run.Frames {
 		if k := p.Ops[i].K; (k == "open" || k == "opendir") && f.Typ == wire.Handle {
@@ -612,6 +711,9 @@ func gExec(cs *gCase) *gRun {
 	run.UsedEnd, run.AvailEnd, _ = gAllocCounts(srv)
 	run.Raw = srv.RawOut()
 	run.Calls, run.Problems = hub.snapshot()
+	if p.Server == "os" {
+		run.Effects = gTreeEffects(run, abs)
+	}
 
 	// final contents of written objects
 	for _, h := range p.Handles {
@@ -619,9 +721,11 @@ func gExec(cs *gCase) *gRun {
 			continue
 		}
 		if p.Server == "os" {
-			b, err := os.ReadFile(abs(h.Path))
-			if err == nil {
-				run.Final[h.Name] = b
+			// (a file that a defective server has extended to an absurd size is not read in)
+			if fi, err := os.Stat(abs(h.Path)); err == nil && fi.Size() <= 1<<26 {
+				if b, err := os.ReadFile(abs(h.Path)); err == nil {
+					run.Final[h.Name] = b
+				}
 			}
 		} else {
 			rsh.mu.Lock()
@@ -729,6 +833,9 @@ func gCheckCommon(run *gRun) []lib.Failure {
 	}
 	for _, pr := range run.Problems {
 		fail("oracle", "alloc/buffer-lent-twice/"+srv, pr, "buffers of concurrently running calls are disjoint", pr)
+	}
+	if run.PageViol != "" {
+		fail("oracle", "alloc/page-released-before-its-response/"+srv, "a page was given back while the request received into it had not been answered", "pages in use >= unanswered requests + 1", run.PageViol)
 	}
 	if len(run.Extra) > 0 {
 		var ex []string
@@ -889,10 +996,71 @@ func gCheckCommon(run *gRun) []lib.Failure {
 				forb = true
 			}
 		}
-		if !want[c.Key] && !forb && c.Op != "Close" && c.Start < pipelineEnd {
+		if !want[c.Key] && !forb && !c.Free && c.Op != "Close" && c.Start < pipelineEnd {
 			fail("oracle", "calls/unrequested/"+srv, "an instrumented call was made that no request of the stream accounts for", nil, c.Key+" ("+c.Op+")")
 		}
 	}
+	return out
+}
+
+// gTreeEffects (os-backed server) describes every object the requests of the program name, as the file system shows
+// it once Serve has returned: kind and permissions, size, owner, modification time (to the second; "during-the-run"
+// for a time that the run itself produced, which two runs of the same program do not share).
+func gTreeEffects(run *gRun, abs func(string) string) []string {
+	p := run.Case.Prog
+	seen := map[string]bool{}
+	var out []string
+	add := func(name string) {
+		if name == "" || seen[name] || len(name) > 200 {
+			return
+		}
+		seen[name] = true
+		fi, err := os.Lstat(abs(name))
+		if err != nil {
+			out = append(out, name+": absent")
+			return
+		}
+		mt := "during-the-run"
+		if m := fi.ModTime(); m.Before(run.Started.Add(-time.Minute)) || m.After(time.Now().Add(time.Minute)) {
+			mt = fmt.Sprint(m.Unix())
+		}
+		uid, gid := -1, -1
+		if st, ok := fi.Sys().(*syscall.Stat_t); ok {
+			uid, gid = int(st.Uid), int(st.Gid)
+		}
+		size := fi.Size()
+		if fi.IsDir() {
+			size = 0
+		}
+		out = append(out, fmt.Sprintf("%s: mode=%v size=%d owner=%d:%d mtime=%s", name, fi.Mode(), size, uid, gid, mt))
+	}
+	for _, h := range p.Handles {
+		add(h.Path)
+	}
+	for _, o := range p.Ops {
+		if o.Pad == 0 && !strings.Contains(o.P, "/") {
+			add(o.P)
+		}
+		add(o.P2)
+	}
+	sort.Strings(out)
+	return out
+}
+
+// gEffects is what the requests of a run did, beyond the replies: on the request server what every command and
+// open handler was shown (method, paths, flags, attribute block), on the os-backed server the resulting objects.
+func gEffects(run *gRun) []string {
+	if run.Case.Prog.Server == "os" {
+		return run.Effects
+	}
+	var out []string
+	for _, c := range run.Calls[run.Setup:] {
+		if c.Free || (c.Op != "Filecmd" && c.Op != "PosixRename" && !strings.HasPrefix(c.Op, "Open")) {
+			continue
+		}
+		out = append(out, c.Key+": "+string(c.Data))
+	}
+	sort.Strings(out)
 	return out
 }
 
